@@ -275,6 +275,11 @@ impl World {
 		self.nodes[n].outdated_chans.clear();
 		let lg = self.nodes[n].disk.lock().unwrap().loaded_generation;
 		self.nodes[n].loaded_gens.push(lg);
+		for p in self.pays.iter_mut() {
+			if p.from == n && !p.ev.sent.is_empty() && p.ev.sent_gen.iter().all(|g| *g + 1 > lg) {
+				p.sent_handling_lost = true;
+			}
+		}
 		self.out.bump("probe:node_restarted");
 		self.note(&format!("node {} restarted (incarnation {})", n, self.nodes[n].incarnation));
 		// In deferred mode the watch_channel registrations above are only queued: checkpoint the
